@@ -166,8 +166,8 @@ type c19Tail struct {
 func (t *c19Tail) Write(p []byte) (int, error) {
 	t.mu.Lock()
 	t.buf = append(t.buf, p...)
-	if len(t.buf) > 1<<15 {
-		t.buf = t.buf[len(t.buf)-1<<14:]
+	if len(t.buf) > 1<<23 {
+		t.buf = t.buf[len(t.buf)-1<<22:]
 	}
 	t.mu.Unlock()
 	return len(p), nil
@@ -656,11 +656,29 @@ var (
 	c19ReSpace = regexp.MustCompile(`[ \t\r\n]+`)
 )
 
+var c19GoBytesRe = regexp.MustCompile(`\[(\d{1,3}(?: \d{1,3}){11,})\]`)
+
 func c19DecodeRuns(b []byte) [][]byte {
 	var out [][]byte
 	emit := func(d []byte) {
 		if len(d) >= 12 {
 			out = append(out, d)
+		}
+	}
+	// byte slices as Go's %v / %+v prints them: [12 255 7 ...]
+	for _, m := range c19GoBytesRe.FindAllSubmatch(b, 64) {
+		var d []byte
+		ok := true
+		for _, f := range bytes.Fields(m[1]) {
+			n, err := strconv.Atoi(string(f))
+			if err != nil || n > 255 {
+				ok = false
+				break
+			}
+			d = append(d, byte(n))
+		}
+		if ok {
+			emit(d)
 		}
 	}
 	// PEM blocks
@@ -949,7 +967,7 @@ func c19ClientRun(p c19Point, env *c19Env, run int) (*c19RunObs, []c19Viol, erro
 	obs := &c19RunObs{Run: run}
 	var viols []c19Viol
 	logger := debuglogger.New(stdlog.New(env.log, "", 0))
-	logger.SetLevel(2)
+	logger.SetLevel(5)
 
 	// --- the client's own HTTP client, from the real code, then tapped
 	rootCAs, err := maybeGetRootCas(env.srv.caFile, logger)
@@ -1117,6 +1135,11 @@ func c19ClientRun(p c19Point, env *c19Env, run int) (*c19RunObs, []c19Viol, erro
 		l2 = append(l2, b)
 		raw = append(raw, c19Unit{Where: fmt.Sprintf("L2:conn%d", i), Data: b})
 	}
+	// L3: everything the client wrote to its log stream (debug level 5: every
+	// statement the code contains is exercised)
+	if lb := env.log.String(); len(lb) > 0 {
+		raw = append(raw, c19Unit{Where: "L3:log", Data: []byte(lb)})
+	}
 	if !loginOK {
 		return nil, nil, fmt.Errorf("password login was not accepted (requests %v, err %q): the configuration could not be driven; server stderr:\n%s", obs.Requests, obs.Err, env.srv.stderr.String())
 	}
@@ -1269,6 +1292,9 @@ func c19ClientRun(p c19Point, env *c19Env, run int) (*c19RunObs, []c19Viol, erro
 			}
 			return w
 		}
+		if strings.HasPrefix(w, "L3") {
+			return "log-stream"
+		}
 		return "connection"
 	}
 	d1keys := mine
@@ -1280,7 +1306,7 @@ func c19ClientRun(p c19Point, env *c19Env, run int) (*c19RunObs, []c19Viol, erro
 			if w, ok := contains(comp.Bytes); ok {
 				viols = append(viols, c19Viol{
 					Key:  fmt.Sprintf("C19|leak|%s|%s", comp.Name, whereClass(w)),
-					What: fmt.Sprintf("private component %s of the client's %s key (%s) occurs in the bytes sent to the server: %s", comp.Name, c19PubKind(k.Pub), k.Source, w)})
+					What: fmt.Sprintf("private component %s of the client's %s key (%s) occurs in what left the process (bytes sent to the server, or the log stream): %s", comp.Name, c19PubKind(k.Pub), k.Source, w)})
 			}
 		}
 	}
@@ -1694,7 +1720,7 @@ func init() {
 		Level:    "model_checking",
 		Rule: "exhaustive product keyPreference(read from the real flag) x server certificate policy {password, TOTP} x agent {present, absent, present-but-refusing-lifetimes, present-holding-foreign-identities (one of an unparsable key type listed first, one ordinary), present-but-failing-the-first-removal-request} x addGroups x run {first, second} " +
 			"on the client's real setupCerts against the real keymasterd mux (child process, real TLS on loopback); states = client invocations, transitions = HTTP requests recorded; " +
-			"every request is recorded twice (RoundTripper level and plaintext written into the TLS connection) and expanded by all base64/base64url/hex/percent/PEM decodings two levels deep; " +
+			"every request is recorded twice (RoundTripper level and plaintext written into the TLS connection), the client's log stream is recorded at debug level 5, and all of it is expanded by all base64/base64url/hex/percent/PEM/Go-byte-slice decodings two levels deep; " +
 			"a class is (configuration, run, outcome) where outcome = installed(agent entries, private files, certificates issued) or refused(request, status)",
 		Assumptions: []string{
 			"no HID token attached (bearsh/hid replaced by its own hid_disabled.go through the overlay); U2F/WebAuthn, Symantec VIP, Okta and browser (webauth) second-factor paths are not driven",
